@@ -333,6 +333,16 @@ func shouldSyncLabels(revision *kubeapps.ControllerRevision) bool {
 	return false
 }
 
+// labelsSynced reports whether revision already carries the labels of set's pod template.
+func labelsSynced(set *apps.StatefulSet, revision *kubeapps.ControllerRevision) bool {
+	for k, v := range set.Spec.Template.Labels {
+		if got, ok := revision.ObjectMeta.Labels[k]; !ok || got != v {
+			return false
+		}
+	}
+	return true
+}
+
 func syncLabels(kubeClient kubernetes.Interface, set *apps.StatefulSet, revision *kubeapps.ControllerRevision) (*kubeapps.ControllerRevision, error) {
 	labels := revision.ObjectMeta.Labels
 	if labels == nil {
@@ -351,9 +361,13 @@ func (ssc *StatefulSetController) adoptOrphanRevisions(set *apps.StatefulSet) er
 	if err != nil {
 		return err
 	}
+	// There is work if a revision is an orphan, or if a migrated revision has lost
+	// the template labels again (a re-run of helper.Upgrade strips them from
+	// revisions that were already synced and adopted).
 	hasOrphans := false
 	for i := range revisions {
-		if metav1.GetControllerOf(revisions[i]) == nil {
+		if metav1.GetControllerOf(revisions[i]) == nil ||
+			(shouldSyncLabels(revisions[i]) && !labelsSynced(set, revisions[i])) {
 			hasOrphans = true
 			break
 		}
@@ -376,7 +390,7 @@ func (ssc *StatefulSetController) adoptOrphanRevisions(set *apps.StatefulSet) er
 			return fmt.Errorf("%v/%v has just been deleted at %v", set.Namespace, set.Name, fresh.DeletionTimestamp)
 		}
 		for i := range revisions {
-			if shouldSyncLabels(revisions[i]) {
+			if shouldSyncLabels(revisions[i]) && !labelsSynced(set, revisions[i]) {
 				revisions[i], err = syncLabels(ssc.kubeClient, set, revisions[i])
 				if err != nil {
 					return err
